@@ -17,6 +17,26 @@ def renderW : List Lex → List Str → Str
   | [], W => W.headD []
   | l :: ls, W => W.headD [] ++ (l.text ++ renderW ls W.tail)
 
+/-- `renderW` followed by a tail `T` (arbitrary text behind the last white string) -/
+def renderWT (T : Str) : List Lex → List Str → Str
+  | [], W => W.headD [] ++ T
+  | l :: ls, W => W.headD [] ++ (l.text ++ renderWT T ls W.tail)
+
+theorem renderWT_nil (ls : List Lex) (W : List Str) : renderWT [] ls W = renderW ls W := by
+  induction ls generalizing W with
+  | nil => simp [renderWT, renderW]
+  | cons l ls ih => simp [renderWT, renderW, ih]
+
+theorem renderWT_eq (T : Str) (ls : List Lex) (W : List Str) : renderWT T ls W = renderW ls W ++ T := by
+  induction ls generalizing W with
+  | nil => simp [renderWT, renderW]
+  | cons l ls ih => simp [renderWT, renderW, ih]
+
+/-- a tail that extends neither a name nor an integer in front of it -/
+def TailOK (T : Str) : Prop := headSat isNameChar T = false ∧ headSat isDigit T = false
+
+theorem TailOK.nil : TailOK [] := ⟨rfl, rfl⟩
+
 /-- every gap is white, and non-empty where two lexemes would fuse -/
 def GoodW : Option Lex → List Lex → List Str → Prop
   | _, [], W => White (W.headD [])
@@ -46,13 +66,18 @@ theorem headSat_nonword (l : Lex) (hnw : ∀ s, l ≠ .word s) (x : Str) :
   | lb => simp [Lex.text, headSat, isNameChar, isDigit]
   | rb => simp [Lex.text, headSat, isNameChar, isDigit]
 
-theorem follows_of_good (l : Lex) (ls : List Lex) (W : List Str) (hg : GoodW (some l) ls W) :
-    Follows l (renderW ls W) := by
-  have key : headSat isNameChar (renderW ls W) = false ∧ headSat isDigit (renderW ls W) = false ∨
+theorem follows_of_goodT (T : Str) (hT : TailOK T) (l : Lex) (ls : List Lex) (W : List Str)
+    (hg : GoodW (some l) ls W) : Follows l (renderWT T ls W) := by
+  have key : headSat isNameChar (renderWT T ls W) = false ∧ headSat isDigit (renderWT T ls W) = false ∨
       (∃ l' ls', ls = l' :: ls' ∧ needsGap (some l) l' = true ∧ W.headD [] = []) ∨
       (∀ s, l ≠ .word s) ∧ (∀ v, l ≠ .int v) := by
     cases ls with
-    | nil => left; exact headSat_white_only _ hg
+    | nil =>
+      left
+      simp only [renderWT]
+      by_cases hne : W.headD [] = []
+      · rw [hne]; exact hT
+      · exact headSat_white _ _ hg hne
     | cons l' ls' =>
       obtain ⟨hw, hgap, _⟩ := hg
       by_cases hne : W.headD [] = []
@@ -64,19 +89,19 @@ theorem follows_of_good (l : Lex) (ls : List Lex) (W : List Str) (hg : GoodW (so
             left
             have hnw : ∀ s', l' ≠ .word s' := by
               intro s' h; subst h; simp [needsGap] at hng
-            simp only [renderW, hne, List.nil_append]
+            simp only [renderWT, hne, List.nil_append]
             exact headSat_nonword l' hnw _
           | int v =>
             left
             have hnw : ∀ s', l' ≠ .word s' := by
               intro s' h; subst h; simp [needsGap] at hng
-            simp only [renderW, hne, List.nil_append]
+            simp only [renderWT, hne, List.nil_append]
             exact headSat_nonword l' hnw _
           | str s => right; right; exact ⟨(by intro s h; cases h), (by intro v h; cases h)⟩
           | lb => right; right; exact ⟨(by intro s h; cases h), (by intro v h; cases h)⟩
           | rb => right; right; exact ⟨(by intro s h; cases h), (by intro v h; cases h)⟩
       · left
-        simp only [renderW]
+        simp only [renderWT]
         exact headSat_white _ _ hw hne
   cases l with
   | word s =>
@@ -92,6 +117,10 @@ theorem follows_of_good (l : Lex) (ls : List Lex) (W : List Str) (hg : GoodW (so
   | str s => trivial
   | lb => trivial
   | rb => trivial
+
+theorem follows_of_good (l : Lex) (ls : List Lex) (W : List Str) (hg : GoodW (some l) ls W) :
+    Follows l (renderW ls W) := by
+  simpa only [renderWT_nil] using follows_of_goodT [] TailOK.nil l ls W hg
 
 theorem isNameChar_ne_nl {c : Char} (h : isNameChar c = true) : c ≠ '\n' := by
   intro hc; subst hc; simp [isNameChar, isWs, wsCodes] at h
@@ -123,14 +152,44 @@ theorem lex_text_no_nl (l : Lex) (hl : LexOK l) : nl l.text = 0 := by
 
 /-! one turn of the loop of `parse_group`, by kind of token -/
 
+theorem mkLiteralE_of_short (k : TokKind) (v : Str) (l : Nat)
+    (hlen : k = .integer → intTooLong v = false) : mkLiteralE k v l = .ok (mkLiteral k v) := by
+  unfold mkLiteralE
+  rw [if_neg]
+  intro ⟨h1, h2⟩
+  rw [hlen h1] at h2; cases h2
+
 theorem parseGroupF_step_lit (fuel : Nat) (st st1 : St) (k : TokKind) (v : Str)
     (hreq : required groupPats none false st = .ok ((k, v), st1))
-    (hk : k = .name ∨ k = .string ∨ k = .integer) :
+    (hk : k = .name ∨ k = .string ∨ k = .integer)
+    (hlen : k = .integer → intTooLong v = false) :
     parseGroupF (fuel + 1) st =
       match parseGroupF fuel st1 with
       | .error e => .error e
       | .ok (ts, st2) => .ok (mkLiteral k v :: ts, st2) := by
-  rcases hk with rfl | rfl | rfl <;> simp only [parseGroupF, hreq] <;> rfl
+  have hm := mkLiteralE_of_short k v st1.line hlen
+  rcases hk with rfl | rfl | rfl <;> simp only [parseGroupF, hreq, hm] <;> rfl
+
+/-- a too long integer literal: the loop of `parse_group` stops there -/
+theorem parseGroupF_step_long (fuel : Nat) (st st1 : St) (v : Str)
+    (hreq : required groupPats none false st = .ok ((.integer, v), st1))
+    (hlen : intTooLong v = true) :
+    parseGroupF (fuel + 1) st
+      = .error (.syntaxError "integer literal too long".toList st1.line) := by
+  simp only [parseGroupF, hreq, mkLiteralE, hlen, and_self, if_true]
+
+theorem intText_digits (v : Int) : (intText v).filter isDigit = Nat.toDigits 10 v.natAbs := by
+  have hall : (Nat.toDigits 10 v.natAbs).filter isDigit = Nat.toDigits 10 v.natAbs :=
+    List.filter_eq_self.2 (toDigits_all_digit _)
+  unfold intText
+  split
+  · simp [List.filter, isDigit, hall]
+  · simp [List.filter, isDigit, hall]
+
+theorem intTooLong_of_wf (v : Int) (h : wfInt v = true) : intTooLong (intText v) = false := by
+  simp only [wfInt, decide_eq_true_eq] at h
+  simp only [intTooLong, intText_digits, int_limit, Bool.and_eq_false_iff, decide_eq_false_iff_not]
+  right; omega
 
 theorem parseGroupF_step_rb (fuel : Nat) (st st1 : St) (v : Str)
     (hreq : required groupPats none false st = .ok ((.rbrace, v), st1)) :
@@ -185,12 +244,15 @@ theorem wfName_ok {n : Str} (h : wfName n = true) :
 
 theorem simpleLex_ok (t : Tok) (hs : t.simple = true) (hwf : wfTok t = true) :
     LexOK (simpleLex t) ∧ mkLiteral (kindOf (simpleLex t)) (simpleLex t).text = t ∧
-    (kindOf (simpleLex t) = .name ∨ kindOf (simpleLex t) = .string ∨ kindOf (simpleLex t) = .integer) := by
+    (kindOf (simpleLex t) = .name ∨ kindOf (simpleLex t) = .string ∨ kindOf (simpleLex t) = .integer) ∧
+    (kindOf (simpleLex t) = .integer → intTooLong (simpleLex t).text = false) := by
   cases t with
   | fn b => simp [Tok.simple] at hs
-  | int v => exact ⟨trivial, mkLiteral_int v, by simp [simpleLex, kindOf]⟩
+  | int v =>
+    exact ⟨trivial, mkLiteral_int v, by simp [simpleLex, kindOf],
+      fun _ => intTooLong_of_wf v (by simpa [wfTok] using hwf)⟩
   | str s =>
-    refine ⟨?_, mkLiteral_str s, by simp [simpleLex, kindOf]⟩
+    refine ⟨?_, mkLiteral_str s, by simp [simpleLex, kindOf], by simp [simpleLex, kindOf]⟩
     intro c hc
     simp only [wfTok, wfStr, List.all_eq_true, Bool.and_eq_true, bne_iff_ne, ne_eq,
       Bool.not_eq_true'] at hwf
@@ -200,7 +262,7 @@ theorem simpleLex_ok (t : Tok) (hs : t.simple = true) (hwf : wfTok t = true) :
     simp [isLineSep, lineSepCodes] at this
   | quoted n =>
     simp only [wfTok, wfQuoted, List.all_eq_true] at hwf
-    refine ⟨⟨by simp, ?_⟩, ?_, by simp [simpleLex, kindOf]⟩
+    refine ⟨⟨by simp, ?_⟩, ?_, by simp [simpleLex, kindOf], by simp [simpleLex, kindOf]⟩
     · intro c hc
       simp only [List.mem_cons] at hc
       rcases hc with rfl | hc
@@ -210,7 +272,8 @@ theorem simpleLex_ok (t : Tok) (hs : t.simple = true) (hwf : wfTok t = true) :
   | name n =>
     simp only [wfTok] at hwf
     obtain ⟨h1, h2, h3⟩ := wfName_ok hwf
-    exact ⟨⟨h1, h2⟩, by simp [simpleLex, kindOf, Lex.text, mkLiteral_word, h3], by simp [simpleLex, kindOf]⟩
+    exact ⟨⟨h1, h2⟩, by simp [simpleLex, kindOf, Lex.text, mkLiteral_word, h3], by simp [simpleLex, kindOf],
+      by simp [simpleLex, kindOf]⟩
 
 /-- all lexemes of a well-formed token list scan as themselves -/
 theorem lexemesList_ok : ∀ ts, wfToks ts = true → ∀ l ∈ lexemesList ts, LexOK l := by
@@ -237,12 +300,12 @@ theorem tail_drop {α : Type} (W : List α) (k : Nat) : W.tail.drop k = W.drop (
 
 /-- **stage "group"**: on clean text, `parse_group` returns exactly the tokens written, stops
 behind the closing brace, and has counted exactly the line breaks it passed -/
-theorem group_rt : ∀ ts, ∀ (prev : Option Lex) (more : List Lex) (W : List Str) (ln fuel : Nat),
+theorem group_rtT (T : Str) (hT : TailOK T) : ∀ ts, ∀ (prev : Option Lex) (more : List Lex) (W : List Str) (ln fuel : Nat),
     wfToks ts = true → (∀ x ∈ more, LexOK x) →
     GoodW prev (lexemesList ts ++ .rb :: more) W → (lexemesList ts).length + 1 ≤ fuel →
-    ∃ W' ln', parseGroupF fuel ⟨renderW (lexemesList ts ++ .rb :: more) W, ln⟩
-        = .ok (ts, ⟨renderW more W', ln'⟩) ∧ GoodW (some .rb) more W' ∧
-      ln' + nl (renderW more W') = ln + nl (renderW (lexemesList ts ++ .rb :: more) W) ∧
+    ∃ W' ln', parseGroupF fuel ⟨renderWT T (lexemesList ts ++ .rb :: more) W, ln⟩
+        = .ok (ts, ⟨renderWT T more W', ln'⟩) ∧ GoodW (some .rb) more W' ∧
+      ln' + nl (renderWT T more W') = ln + nl (renderWT T (lexemesList ts ++ .rb :: more) W) ∧
       W' = W.drop ((lexemesList ts).length + 1) := by
   apply toks_induction
   · -- the closing brace
@@ -251,31 +314,31 @@ theorem group_rt : ∀ ts, ∀ (prev : Option Lex) (more : List Lex) (W : List S
     cases fuel with
     | zero => simp at hfuel
     | succ fuel =>
-      have hreq := required_lex .rb trivial (W.headD []) (renderW more W.tail) hw ln trivial none false
+      have hreq := required_lex .rb trivial (W.headD []) (renderWT T more W.tail) hw ln trivial none false
       refine ⟨W.tail, ln + (W.headD []).count '\n', ?_, hg', ?_, by simp [lexemesList]⟩
-      · simp only [lexemesList, List.nil_append, renderW]
+      · simp only [lexemesList, List.nil_append, renderWT]
         exact parseGroupF_step_rb fuel _ _ _ hreq
-      · simp only [lexemesList, List.nil_append, renderW, nl_append, Lex.text, nl]
+      · simp only [lexemesList, List.nil_append, renderWT, nl_append, Lex.text, nl]
         simp; omega
   · -- a literal, then the rest
     intro t ts hs ih prev more W ln fuel hwf hmore hg hfuel
     simp only [wfToks, Bool.and_eq_true] at hwf
-    obtain ⟨hok, hmk, hkind⟩ := simpleLex_ok t hs hwf.1
+    obtain ⟨hok, hmk, hkind, hshort⟩ := simpleLex_ok t hs hwf.1
     simp only [lexemesList, lexemes_simple t hs, List.singleton_append, List.cons_append,
       List.nil_append, List.length_cons] at hg hfuel ⊢
     obtain ⟨hw, _, hg'⟩ := hg
     cases fuel with
     | zero => omega
     | succ fuel =>
-      have hfol := follows_of_good (simpleLex t) _ _ hg'
+      have hfol := follows_of_goodT T hT (simpleLex t) _ _ hg'
       have hreq := required_lex (simpleLex t) hok (W.headD []) _ hw ln hfol none false
       obtain ⟨W', ln', hp, hgood, hcons, hdrop⟩ :=
         ih (some (simpleLex t)) more W.tail (ln + (W.headD []).count '\n') fuel hwf.2 hmore hg' (by omega)
       refine ⟨W', ln', ?_, hgood, ?_, by rw [hdrop, tail_drop]⟩
-      · simp only [renderW]
-        rw [parseGroupF_step_lit fuel _ _ _ _ hreq hkind, hp, hmk]
+      · simp only [renderWT]
+        rw [parseGroupF_step_lit fuel _ _ _ _ hreq hkind hshort, hp, hmk]
       · rw [hcons]
-        simp only [renderW, nl_append, lex_text_no_nl _ hok]
+        simp only [renderWT, nl_append, lex_text_no_nl _ hok]
         simp only [nl]; omega
   · -- a function literal, then the rest
     intro body ts ihb iht prev more W ln fuel hwf hmore hg hfuel
@@ -293,7 +356,7 @@ theorem group_rt : ∀ ts, ∀ (prev : Option Lex) (more : List Lex) (W : List S
     | zero => omega
     | succ fuel =>
       have hreq := required_lex .lb trivial (W.headD [])
-        (renderW (lexemesList body ++ .rb :: (lexemesList ts ++ .rb :: more)) W.tail) hw ln trivial none false
+        (renderWT T (lexemesList body ++ .rb :: (lexemesList ts ++ .rb :: more)) W.tail) hw ln trivial none false
       have hmore' : ∀ x ∈ lexemesList ts ++ .rb :: more, LexOK x := by
         intro x hx
         simp only [List.mem_append, List.mem_cons] at hx
@@ -310,11 +373,20 @@ theorem group_rt : ∀ ts, ∀ (prev : Option Lex) (more : List Lex) (W : List S
       rotate_left 2
       · rw [hdrop2, hdrop1, tail_drop, List.drop_drop, hlen]
         congr 1; omega
-      · simp only [renderW]
+      · simp only [renderWT]
         rw [parseGroupF_step_lb fuel _ _ _ hreq, hp1]
         simp only [hp2]
       · rw [hcons2, hcons1]
-        simp only [renderW, nl_append, Lex.text]
+        simp only [renderWT, nl_append, Lex.text]
         simp only [nl]; simp; omega
+
+theorem group_rt : ∀ ts, ∀ (prev : Option Lex) (more : List Lex) (W : List Str) (ln fuel : Nat),
+    wfToks ts = true → (∀ x ∈ more, LexOK x) →
+    GoodW prev (lexemesList ts ++ .rb :: more) W → (lexemesList ts).length + 1 ≤ fuel →
+    ∃ W' ln', parseGroupF fuel ⟨renderW (lexemesList ts ++ .rb :: more) W, ln⟩
+        = .ok (ts, ⟨renderW more W', ln'⟩) ∧ GoodW (some .rb) more W' ∧
+      ln' + nl (renderW more W') = ln + nl (renderW (lexemesList ts ++ .rb :: more) W) ∧
+      W' = W.drop ((lexemesList ts).length + 1) := by
+  simpa only [renderWT_nil] using group_rtT [] TailOK.nil
 
 end Pybtex.Bst
